@@ -305,3 +305,43 @@ remove_ind.ensures_rt = [
     # every ancestor of a node whose contraction involves the index has lost the recipes that depend on its children's index order
     "all(k not in self.info[a] for n in self.info if (not is_leaf(n) and ind in old(self.info)[n]['involved']) for a in ancestors(n) for k in ('einsum_eq', 'can_dot', 'tensordot_axes', 'tensordot_perm'))",
 ]
+
+
+# ------------------------------------------------------ reset_contraction_indices
+KEEP4 = " and ".join(f"('{k}' in self.info[n]) == old('{k}' in self.info[n])" for k in ("legs", "involved", "size", "flops"))
+reset = Contract(
+    target="cotengra.core:ContractionTree.reset_contraction_indices",
+    props=["C02"],
+    self_type=TreeT,
+    params={},
+    requires=["forall(keys(self.children), lambda n: n in self.info)"],
+    modifies=["self.info", "self.contraction_cores"],
+    nloops=None,
+    loops={0: Loop(seen="S", inv=[
+        "keys(self.info) == old(keys(self.info))",
+        "forall(S, lambda n: " + NOREC5 + ")",
+        "forall(keys(self.info), lambda n: self.info[n]['legs'] == " + OI + "['legs'] and self.info[n]['involved'] == " + OI + "['involved'] and self.info[n]['size'] == " + OI + "['size'] and self.info[n]['flops'] == " + OI + "['flops'] and " + KEEP4 + ")",
+        "forall(keys(self.info), lambda n: implies(not (n in self.children), self.info[n] == " + OI + "))",
+    ])},
+    ensures=[
+        "keys(self.info) == old(keys(self.info))",
+        # every intermediate node forgets its explicit index order and every recipe derived from it
+        "forall(keys(self.children), lambda n: " + NOREC5 + ")",
+        # the cached figures stay
+        "forall(keys(self.info), lambda n: self.info[n]['legs'] == " + OI + "['legs'] and self.info[n]['involved'] == " + OI + "['involved'] and self.info[n]['size'] == " + OI + "['size'] and self.info[n]['flops'] == " + OI + "['flops'] and " + KEEP4 + ")",
+        "forall(keys(self.info), lambda n: implies(not (n in self.children), self.info[n] == " + OI + "))",
+        "keys(self.contraction_cores) == empty()",
+    ],
+)
+CONTRACTS.append(reset)
+
+
+def _gen_reset(rng):
+    case = _gen(rng)
+    if case is None:
+        return None
+    return {"self": case["self"], "args": (), "universe": case["universe"], "describe": case["describe"].rsplit(" remove ", 1)[0]}
+
+
+reset.gen = _gen_reset
+reset.pre_must_hold = True
